@@ -103,10 +103,13 @@ contract Scraper.RequestTo
 contract Scraper.ParseResponse
   requires s != nil && s.ctxCancel != nil && teeInstalled(s) && (s.gZipReader != nil ==> !s.gZipReader.gInPool)
   ensures[C12] @only_attached_writers_receive_bytes onlyAttachedWritten(s)
+  // "For a successful scrape ..." (C12) / "a body that breaks off part-way" (C13): the scrape counts as failed exactly when
+  // streaming the body failed - a body that was read to the end is a success whatever the statistics parser thinks of its lines
+  ensures[C12,C13] @a_completely_streamed_body_is_a_success (result == nil) == gStreamOK
   ensures forall q : int :: gOutLen[q] >= old(gOutLen[q])
   ensures forall x : *StatisticsSeriesResult :: old(allocated(x)) ==> (x.Total >= old(x.Total) && x.ScrapedTotal >= old(x.ScrapedTotal))
   ensures s.gZipReader == old(s.gZipReader) && (s.gZipReader != nil ==> s.gZipReader.gInPool)
-  modifies gOutLen, gOutData, StatisticsSeriesResult.*, MetricSamplesInfo.*, mapof(StatisticsSeriesResult.MetricsTotal), gKept, gMetricTotal, gMetricScraped, github.com/klauspost/compress/gzip.Reader.gInPool, gClock
+  modifies gStreamOK, gOutLen, gOutData, StatisticsSeriesResult.*, MetricSamplesInfo.*, mapof(StatisticsSeriesResult.MetricsTotal), gKept, gMetricTotal, gMetricScraped, github.com/klauspost/compress/gzip.Reader.gInPool, gClock
 
 contract Scraper.WithRawWriter
   requires s != nil
